@@ -253,6 +253,69 @@ static void describe_inode(snap_t *s, int i, sqfs_inode_generic_t *n)
 	snprintf(s->desc + l, sizeof(s->desc) - l, "]");
 }
 
+/* read every file back from the output (blocks + fragment) and compare with what was fed in */
+static void verify_contents(const char *who)
+{
+	static sqfs_u8 buf[BS * 16], tmp[BS * 4];
+	sqfs_compressor_t *un = toy_create(1);
+	for (int i = 0; i < nfiles; ++i) {
+		sqfs_inode_generic_t *n = g_inodes[i];
+		sqfs_u64 size = 0, pos = 0;
+		sqfs_u32 fi = 0, fo = 0;
+		size_t got = 0;
+		if (n == NULL) vs_fail(VS_ORACLE, "%s: file %d has no inode", who, i);
+		sqfs_inode_get_file_size(n, &size);
+		sqfs_inode_get_file_block_start(n, &pos);
+		sqfs_inode_get_frag_location(n, &fi, &fo);
+		if (size != files[i].size)
+			vs_fail(VS_ORACLE, "%s: file %d has size %llu, input had %zu", who, i, (unsigned long long)size, files[i].size);
+		size_t nblk = n->payload_bytes_used / sizeof(sqfs_u32);
+		for (size_t k = 0; k < nblk; ++k) {
+			sqfs_u32 w = n->extra[k], ond = w & 0xFFFFFF;
+			size_t want = size - got > BS ? BS : (size_t)(size - got);
+			if (ond == 0) { memset(buf + got, 0, want); got += want; continue; }
+			if (pos + ond > g_mem->size || ond > BS)
+				vs_fail(VS_ORACLE, "%s: file %d block %zu [%llu,+%u) outside the output", who, i, k, (unsigned long long)pos, ond);
+			if (w & (1 << 24)) {
+				memcpy(buf + got, g_mem->data + pos, ond);
+				if (ond < want) memset(buf + got + ond, 0, want - ond);
+			} else {
+				sqfs_s32 r = un->do_block(un, g_mem->data + pos, ond, tmp, BS);
+				if (r < 0 || (size_t)r > want) vs_fail(VS_ORACLE, "%s: file %d block %zu does not unpack (%d)", who, i, k, r);
+				memcpy(buf + got, tmp, (size_t)r);
+				if ((size_t)r < want) memset(buf + got + r, 0, want - (size_t)r);
+			}
+			got += want;
+			pos += ond;
+		}
+		if (fi != 0xFFFFFFFF && got < size) {
+			sqfs_fragment_t fr;
+			size_t tail = (size_t)(size - got), flen;
+			if (sqfs_frag_table_lookup(g_frag, fi, &fr) != 0)
+				vs_fail(VS_ORACLE, "%s: file %d fragment index %u not in table", who, i, fi);
+			sqfs_u32 ond = fr.size & 0xFFFFFF;
+			if (fr.start_offset + ond > g_mem->size)
+				vs_fail(VS_ORACLE, "%s: fragment block %u outside the output", who, fi);
+			if (fr.size & (1 << 24)) { memcpy(tmp, g_mem->data + fr.start_offset, ond); flen = ond; }
+			else {
+				sqfs_s32 r = un->do_block(un, g_mem->data + fr.start_offset, ond, tmp, BS);
+				if (r < 0) vs_fail(VS_ORACLE, "%s: fragment block %u does not unpack", who, fi);
+				flen = (size_t)r;
+			}
+			if (fo + tail > flen)
+				vs_fail(VS_ORACLE, "%s: file %d fragment [%u,+%zu) outside block of %zu", who, i, fo, tail, flen);
+			memcpy(buf + got, tmp + fo, tail);
+			got += tail;
+		}
+		if (got != size || memcmp(buf, files[i].data, (size_t)size) != 0) {
+			size_t d = 0;
+			while (d < got && d < size && buf[d] == files[i].data[d]) ++d;
+			vs_fail(VS_ORACLE, "%s: file %d reads back different from its input (first difference at byte %zu of %llu)", who, i, d, (unsigned long long)size);
+		}
+	}
+	sqfs_drop(un);
+}
+
 static int run_scenario(int workers, int backlog, snap_t *snap)
 {
 	sqfs_block_processor_desc_t desc;
@@ -302,6 +365,7 @@ static int run_scenario(int workers, int backlog, snap_t *snap)
 	snap->status = ret;
 
 	if (ret == 0) {
+		verify_contents(serial_mode ? "serial pool" : "threaded pool");
 		memcpy(snap->out, g_mem->data, g_mem->size);
 		snap->out_size = g_mem->size;
 		snap->nwrites = g_mem->nwrites;
